@@ -372,6 +372,12 @@ func GenDAG(t *rapid.T, epoch uint32, ids []idx.ValidatorID, weights []pos.Weigh
 		layered = rapid.Bool().Draw(t, "layeredRoundsMany")
 	}
 	info.Layered = layered
+	// staleSkip: 0 = tips already seen by the self-parent are referenced again and again (redundant parents), 1 =
+	// mostly not, 2 = never
+	staleSkip := rapid.IntRange(0, 2).Draw(t, "staleTipSkip")
+	if info.Shape == "late_quorum" {
+		staleSkip = 2
+	}
 	snap := make([]int, n)
 	marginalRound := false
 	activity := make([]int, n)
@@ -424,6 +430,10 @@ func GenDAG(t *rapid.T, epoch uint32, ids []idx.ValidatorID, weights []pos.Weigh
 					seenLate[v] = rapid.SampledFrom([]int{0, 0, 0, 0, 1, 3, 6}).Draw(t, "seenLate")
 					learnLate[v] = rapid.SampledFrom([]int{0, 0, 0, 0, 1, 3, 6}).Draw(t, "learnLate")
 					if core != nil && rapid.IntRange(0, 15).Draw(t, "coreLate") != 0 {
+						seenLate[v], learnLate[v] = 0, 0
+					}
+					if round < lateRounds {
+						// the quorum-less phase is a long, regular gossip: no validator lags behind
 						seenLate[v], learnLate[v] = 0, 0
 					}
 				}
@@ -575,6 +585,10 @@ func GenDAG(t *rapid.T, epoch uint32, ids []idx.ValidatorID, weights []pos.Weigh
 				evs = evs[:snap[u]] // synchronous rounds: only what existed when the round began
 			}
 			if u == creator || group[u] != group[creator] || len(evs) == 0 || len(evs) <= refFrom[u] {
+				continue
+			}
+			// a tip the self-parent has seen already brings nothing new: emitters mostly do not reference it again
+			if staleSkip > 0 && sp >= 0 && ref.Evs[sp].Anc.Has(evs[len(evs)-1]) && (staleSkip == 2 || rapid.IntRange(0, 7).Draw(t, "staleTip") != 0) {
 				continue
 			}
 			if marginalRound {
